@@ -230,7 +230,10 @@ static void scn_merge(const Scn &s, Result &r) {
   if (!ls.build(fam, r)) return;
   MergeClos mc;
   mc.keep_log = false;
-  if (fail_at > 0) mc.fail_at = fail_at;
+  if (fail_at > 0) {
+    mc.fail_at = fail_at;
+    mc.fail_style = (int)(P(s, 1) % 2);
+  }
   struct mtbl_merger_options *mo = mtbl_merger_options_init();
   mtbl_merger_options_set_merge_func(mo, concat_merge, &mc);
   struct mtbl_merger *mg = mtbl_merger_init(mo);
@@ -258,7 +261,10 @@ static void scn_sort(const Scn &s, Result &r, const std::string &tdir) {
   PoolHolder ph(pool == 0 ? -1 : pool - 1);
   MergeClos mc;
   mc.keep_log = false;
-  if (fail_at > 0) mc.fail_at = fail_at;
+  if (fail_at > 0) {
+    mc.fail_at = fail_at;
+    mc.fail_style = adds % 2;
+  }
   struct mtbl_sorter_options *so = mtbl_sorter_options_init();
   mtbl_sorter_options_set_temp_dir(so, tdir.c_str());
   size_t mm = memclass == 0 ? 1 : memclass == 1 ? 200 : memclass == 2 ? 1500 : (1u << 30);
